@@ -544,4 +544,44 @@ theorem sortedMap_run_refines (ops : List SortedMap.Op) :
   · intro e he; rw [← hg e.1]; exact ha2 e he
   · exact ((SortedMap.keys_sorted s).2.length_eq).symm
 
+/-! ## Any `pick`, and consumers that stop early -/
+
+/-- `mergesort.Merge` with **any** `pick` that returns one of its two arguments (first, second, newest, …) on sorted
+inputs: no panic; strictly ascending output (one item per key); only input items; every input key is represented.
+Which of several equal-key items survives is `pick`'s choice along the heap's pop order. -/
+theorem merge_any_pick {α : Type} [DecidableEq α] {cmp : α → α → Int} (hc : Merge.CmpOK cmp) (pick : α → α → α)
+    (hpick : ∀ a b, pick a b = a ∨ pick a b = b)
+    (runs : List (List α)) (hsorted : ∀ r ∈ runs, r.Pairwise (fun a b => cmp a b ≤ 0)) :
+    ∃ out, Merge.merge cmp pick runs = some out ∧
+      out.Pairwise (fun a b => cmp a b < 0) ∧ (∀ o ∈ out, o ∈ runs.flatten) ∧
+      (∀ y ∈ runs.flatten, ∃ o ∈ out, cmp o y = 0) := by
+  obtain ⟨hperm, hs⟩ := Merge.mergeSorted_spec hc runs hsorted
+  obtain ⟨out, h1, h2, h3, h4⟩ := Merge.resolve_generic hc pick hpick _ hs
+  exact ⟨out, h1, h2, fun o ho => hperm.subset (h3 o ho), fun y hy => h4 y (hperm.symm.subset hy)⟩
+
+/-- a `pick` that answers an equal pair with a value that is neither argument makes the duplicate resolution panic
+("pick must return one of the provided arguments") -/
+theorem merge_foreign_pick_panics {α : Type} [DecidableEq α] (cmp : α → α → Int) (pick : α → α → α) (a b : α)
+    (rest : List α) (h0 : cmp a b = 0) (h1 : pick a b ≠ a) (h2 : pick a b ≠ b) :
+    Merge.resolve cmp pick (a :: b :: rest) = none :=
+  Merge.resolve_foreign_panics pick a b rest h0 h1 h2
+
+/-- Early termination (`yield` returning false at the consumer's `n`-th item, `n ≥ 1`): what the consumer has seen
+is exactly the first `n` items of the full sequence — for `ZipTree.AscendPrefix`, `MergeSorted` and `Merge` (for `Merge`
+whenever the full run does not panic; a panic that lies beyond the `n`-th item is simply not reached). The iterations
+are read-only on the structures (`SortedMap.All` sorts before it returns its iterator), so no state is left half-updated. -/
+theorem early_termination_prefix (n : Nat) (hn : 1 ≤ n) :
+    (∀ t p, ZipTree.ascendPrefixN t p n = (ZipTree.ascendPrefix t p).take n) ∧
+    (∀ {α : Type} (cmp : α → α → Int) (runs : List (List α)),
+      Merge.mergeSortedN cmp runs n = (Merge.mergeSorted cmp runs).take n) ∧
+    (∀ {α : Type} [DecidableEq α] (cmp : α → α → Int) (pick : α → α → α) (runs : List (List α)) (out : List α),
+      Merge.merge cmp pick runs = some out → Merge.mergeN cmp pick runs n = some (out.take n)) :=
+  ⟨fun t p => ZipTree.ascendPrefixN_eq t p n hn,
+   fun cmp _ => Merge.popsN_eq cmp _ n hn _,
+   fun cmp pick _ out h => Merge.resolveN_prefix cmp pick n hn _ out h⟩
+
+/-- non-vacuity: `first` is a pick that returns one of its arguments -/
+example : ∀ a b : Merge.Entry, (fun a _ => a) a b = a ∨ (fun (a : Merge.Entry) (_ : Merge.Entry) => a) a b = b :=
+  fun _ _ => Or.inl rfl
+
 end Rxn.C19
